@@ -34,6 +34,8 @@ type BatchResult struct {
 	Evaluations  int            `json:"evaluations"`
 	NonTrivial   []uint64       `json:"nontrivial"`
 	Counts       map[string]int `json:"counts"`
+	// ClassCounts: occurrences per violation class (all of them; Violations keeps the first 3 of each)
+	ClassCounts map[string]int `json:"class_counts,omitempty"`
 	Violations   []Violation    `json:"violations"`
 	Inconclusive map[string]int `json:"inconclusive"`
 	Samples      []any          `json:"samples"`
@@ -131,7 +133,7 @@ func CaseSeed(seed int64, prop string, batch, index int) int64 {
 }
 
 func NewWorker(prop, tier string, seed int64, batch int, curPath string) *Worker {
-	w := &Worker{Prop: prop, Tier: tier, Seed: seed, Batch: batch, nt: map[uint64]struct{}{}, MaxViol: 200, Replay: -1}
+	w := &Worker{Prop: prop, Tier: tier, Seed: seed, Batch: batch, nt: map[uint64]struct{}{}, MaxViol: 400, Replay: -1}
 	w.Res = BatchResult{Prop: prop, Batch: batch, Counts: map[string]int{}, Inconclusive: map[string]int{}, Extra: map[string]any{}}
 	if curPath != "" {
 		go w.watchdog()
@@ -168,8 +170,8 @@ func (w *Worker) Run(n int, fn func(c *Case)) {
 				}
 			}
 		}
-		if len(w.Res.Violations) >= w.MaxViol {
-			break
+		if len(w.Res.ClassCounts) >= 100 {
+			break // a hundred distinct classes in one batch: enough to look at
 		}
 	}
 }
@@ -264,6 +266,17 @@ func (c *Case) WantSample() bool { return len(c.w.Res.Samples) < 6 && c.Index%7 
 func (c *Case) Violation(class, msg string, detail any) {
 	c.viols++
 	if c.viols > 3 {
+		return
+	}
+	// every occurrence is counted; only the first few of a class are kept with
+	// their input (a frequent known finding must not crowd out anything else,
+	// nor end the batch early)
+	full := c.Prop + "/" + class
+	if c.w.Res.ClassCounts == nil {
+		c.w.Res.ClassCounts = map[string]int{}
+	}
+	c.w.Res.ClassCounts[full]++
+	if c.w.Res.ClassCounts[full] > 3 {
 		return
 	}
 	if len(c.w.Res.Violations) >= c.w.MaxViol {
